@@ -135,17 +135,21 @@ def parse_sinusoid(text, unit):
         return None
     w = float(wv[0]) * (2 * math.pi if hz else 1)
     phase = 0.0
+    ptol = 1e-4           # the code omits a phase below 1e-4 rad
     if ph is not None:
         if ph.endswith('°'):
             pv = parse_real(ph, '°')
             phase = math.radians(float(pv[0])) if pv else None
+            ptol = math.radians(0.5 * 10.0 ** (pv[2] - pv[1])) if pv else 0
         else:
             pv = parse_real(ph, '')
             phase = float(pv[0]) if pv else None
+            ptol = 0.5 * 10.0 ** (pv[2] - pv[1]) if pv else 0
         if phase is None:
             return None
         if sg == '-':
             phase = -phase
+    parse_sinusoid.ptol = ptol * (1 + 1e-9) + 1e-12     # half a unit of the last printed digit of the phase
     return float(A[0]), fn, w, phase
 
 
@@ -310,7 +314,7 @@ def judge(kind, text, unit, ref, p, q, w, peak=False):
             want_ph = cmath.phase(ref) - (math.pi / 2 if fn == 'sin' else 0)
             # the cos-referenced phase of x(t) = Re(X e^{jwt}) is arg X; sin reference: arg X + pi/2 ... the code subtracts pi/2
             d1 = abs(cmath.phase(cmath.rect(1, ph) / cmath.rect(1, cmath.phase(ref) + (math.pi / 2 if fn == 'sin' else 0))))
-            if d1 > 6e-3:
+            if d1 > getattr(parse_sinusoid, 'ptol', 6e-3):
                 bad.append(('C14:sinusoid:wrong-phase', f'{text!r}: {fn} phase {ph}, phasor angle {cmath.phase(ref)}'))
         return bad
     return []
